@@ -505,6 +505,7 @@ func (pd *perBitData) parseSequenceOf(sizeExtensed bool, params fieldParameters,
 	if sizeRange > 1 {
 		if numElementsTmp, err := pd.parseConstraintValue(sizeRange); err != nil {
 			logger.AperLog.Warnf("Parse Constraint Value failed: %+v", err)
+			return sliceContent, err
 		} else {
 			numElements = numElementsTmp
 		}
